@@ -67,10 +67,17 @@ type monitor struct {
 
 	dueU map[int64]map[string]*big.Int // undelegation credits due at height
 	dueR map[int64]map[string]*big.Int // reward-withdrawal credits due at height
+	pre  []preEntry                    // genesis pending list (diagnosis only)
 	paid *big.Int                      // reward withdrawals paid out so far (as due)
 	rein *big.Int                      // rewards reinvested so far
 
 	feats map[string]int
+}
+
+type preEntry struct {
+	addr string
+	h    int64
+	amt  *big.Int
 }
 
 func addDue(m map[int64]map[string]*big.Int, h int64, a string, v *big.Int) {
@@ -96,7 +103,9 @@ func newMonitor(w *hist.World, pre []dlgrw.PrePending) (*monitor, *outcome) {
 	}
 	for _, pp := range pre {
 		a, _ := new(big.Int).SetString(pp.Amount, 10)
-		addDue(m.dueU, pp.Height, w.G.U.Users[pp.User%len(w.G.U.Users)].Addr.String(), a)
+		addr := w.G.U.Users[pp.User%len(w.G.U.Users)].Addr.String()
+		addDue(m.dueU, pp.Height, addr, a)
+		m.pre = append(m.pre, preEntry{addr, pp.Height, a})
 	}
 	m.prev = dlgrw.NewView(w.Primary().DumpMap())
 	m.M = m.prev.Maturity()
@@ -245,6 +254,12 @@ func (m *monitor) block(b *sim.Block, res *sim.BlockRes, dump map[string][]byte)
 				class := "extra-credit"
 				if residual.Cmp(due) < 0 {
 					class = "missing-credit"
+				}
+				diff := new(big.Int).Sub(residual, due)
+				for _, pe := range m.pre {
+					if pe.addr == a && pe.h != h && pe.amt.Cmp(diff) == 0 {
+						class = "genesis-pending-paid-at-other-height"
+					}
 				}
 				return &outcome{"maturity-credit", class, fmt.Sprintf(
 					"h=%d (maturity %d): balance of %s moved by %s; its own successful transactions in this block account for %s; the remaining %s should equal the credits due in this block: %s (undelegations of block %d: %v, reward withdrawals of block %d: %v)",
